@@ -599,6 +599,8 @@ _CONST_NAME = _re.compile(r"^_?[A-Z][A-Z0-9_]*$")
 
 
 def _literal(v: ast.AST) -> bool:
+    if isinstance(v, ast.Tuple) and len(v.elts) <= 8 and isinstance(v.ctx, ast.Load):
+        return all(_literal(e) and not isinstance(e, ast.Tuple) for e in v.elts)  # `NO_REPLY = (None, None)`: immutable, its members are all it is
     if isinstance(v, ast.Constant) and (v.value is None or isinstance(v.value, (str, int, float, bool))) and not isinstance(v.value, bytes):
         return True
     return isinstance(v, ast.UnaryOp) and isinstance(v.op, (ast.USub, ast.UAdd)) and isinstance(v.operand, ast.Constant) and isinstance(v.operand.value, (int, float)) and not isinstance(v.operand.value, bool)
